@@ -233,7 +233,8 @@ def _wmedian_accept(v, w):
     ws = [Fraction(x) for x in w[order].tolist()]
     total = sum(ws)
     half = total / 2
-    exactw = all(x.denominator == 1 and x < 2 ** 30 for x in ws)
+    # float sums are exact for dyadic weights with few bits (1, 3, 0.5, 2.5, 1e6 ...): ties are then held strictly
+    exactw = all((2 ** 20 * x).denominator == 1 and x < 2 ** 30 for x in ws)
     # group by distinct value
     groups = []
     for val, wt in zip(vals, ws):
@@ -308,15 +309,38 @@ def clip_cases(draw, for_get_stats=False):
     center = draw(st.sampled_from([0.0, 0.0, 1.0, -5.0, 100.0, 1e4]))
     sigma = draw(st.sampled_from([1.0, 1.0, 1e-3, 0.1, 50.0]))
     case = {"n": n, "center": center, "sigma": sigma}
+    if draw(st.integers(0, 7)) == 0:
+        # data with points lying exactly on nsig*s in exact float arithmetic: p pairs at c +- nsig*t and
+        # 2p(nsig^2-1) points at c give mean c, deviation t; integer everything -> the strict '<' is decidable
+        nsx, t = draw(st.sampled_from([(2, 1), (2, 2), (2, 3), (3, 1), (3, 2), (1.5, 2), (2.5, 2), (1, 1), (1, 4)]))
+        p = draw(st.integers(1, 3))
+        if nsx == 1.5:
+            p = 2 * p
+        if nsx == 2.5:
+            p = 2 * p
+        z = int(round(2 * p * (nsx * nsx - 1)))
+        c = draw(st.integers(-50, 50))
+        a = int(round(nsx * t))
+        vals = [c + a] * p + [c - a] * p + [c] * z
+        perm = draw(st.permutations(list(range(len(vals)))))
+        return {"n": len(vals), "exact": [float(vals[i]) for i in perm], "center": float(c), "sigma": float(t),
+                "quant": 0, "outliers": [], "nsig": draw(st.sampled_from([nsx, float(nsx)])),
+                "niter": draw(st.integers(1, 10)), "wmode": "none", "get_err": draw(st.booleans()),
+                "get_indices": draw(st.booleans()), "defaults": False}
     if n <= 30 and draw(st.booleans()):
         case["z"] = draw(st.lists(st.floats(-3.0, 3.0), min_size=n, max_size=n))
     else:
         case["seed"] = draw(st.integers(0, 2 ** 32 - 1))
     case["quant"] = draw(st.sampled_from([0, 0, 0, 1, 2]))     # round deviates to 1/quant sigma -> ties
     nout = draw(st.sampled_from([0, 1, 1, 2, 3, 5]))
-    case["outliers"] = [[draw(st.integers(0, n)), draw(st.sampled_from([1, -1])),
-                         draw(st.one_of(st.floats(1.0, 6.0), st.sampled_from([1.0, 2.0, 3.0, 4.0, 6.0])))]
-                        for _ in range(nout)]
+    if draw(st.integers(0, 2)) == 0:
+        # staircase: one outlier per decade, so that every iteration removes exactly one of them
+        case["outliers"] = [[draw(st.integers(0, n)), draw(st.sampled_from([1, -1])), lg]
+                            for lg in [6.0, 5.0, 4.0, 3.0, 2.0][:nout]]
+    else:
+        case["outliers"] = [[draw(st.integers(0, n)), draw(st.sampled_from([1, -1])),
+                             draw(st.one_of(st.floats(1.0, 6.0), st.sampled_from([1.0, 2.0, 3.0, 4.0, 6.0])))]
+                            for _ in range(nout)]
     case["nsig"] = draw(st.one_of(st.floats(0.5, 6.0), st.sampled_from([0.5, 1.0, 2.0, 3.0, 4.0, 6.0]),
                                   st.sampled_from([3, 4])))
     case["niter"] = draw(st.integers(0, 10))
@@ -333,6 +357,8 @@ def clip_cases(draw, for_get_stats=False):
 
 def _clip_arrays(case):
     n = case["n"]
+    if "exact" in case:
+        return np.array(dec(case["exact"]), dtype="f8"), None
     if "z" in case:
         z = np.array(dec(case["z"]), dtype="f8")
     else:
@@ -377,6 +403,37 @@ def _subset_stats(x, w):
     return m, e, s
 
 
+def _pow2(d):
+    return d & (d - 1) == 0
+
+
+def _exact_clip_step(cur, nsig):
+    """Unweighted subset `cur` (float64).  If every float64 operation esutil performs (mean, deviations,
+    squares, their mean, sqrt, nsig*s, the comparison) is provably exact -- small integer data whose mean is a
+    short dyadic rational, whose variance is the square of a short dyadic rational, and a short dyadic nsig --
+    return the exact keep mask; else None.  This lets points lying *exactly* on nsig*s be held strictly."""
+    if cur.size > 4096 or not np.all(cur == np.round(cur)) or np.abs(cur).max() >= 2 ** 20:
+        return None
+    xs = [int(v) for v in cur.tolist()]
+    n = len(xs)
+    m = Fraction(sum(xs), n)
+    if not (_pow2(m.denominator) and m.denominator <= 2 ** 10):
+        return None
+    var = sum((Fraction(v) - m) ** 2 for v in xs) / n
+    if not (_pow2(var.denominator) and var.denominator <= 2 ** 30 and var.numerator < 2 ** 50):
+        return None
+    import math
+    rn, rd = math.isqrt(var.numerator), math.isqrt(var.denominator)
+    if rn * rn != var.numerator or rd * rd != var.denominator:
+        return None
+    sdev = Fraction(rn, rd)
+    ns = Fraction(float(nsig))
+    if not (_pow2(ns.denominator) and ns.denominator <= 2 ** 10 and ns < 2 ** 10):
+        return None
+    thr = ns * sdev
+    return np.array([abs(Fraction(v) - m) < thr for v in xs], dtype=bool)
+
+
 def _ref_clip(x, w, nsig, niter):
     """Reference loop.  Returns (indices, decidable, removing_iterations)."""
     idx = np.arange(x.size)
@@ -386,13 +443,15 @@ def _ref_clip(x, w, nsig, niter):
     m, e, s = st_
     removing = 0
     for _ in range(niter):
-        cur = x[idx].astype(LD)
-        dev = np.abs(cur - m)
-        thr = LD(nsig) * s
-        margin = LD(1e-9) * s + LD(1e-11) * np.abs(cur).max()
-        if np.any(np.abs(dev - thr) <= margin):
-            return idx, False, removing
-        keep = dev < thr
+        keep = _exact_clip_step(x[idx], nsig) if w is None else None
+        if keep is None:
+            cur = x[idx].astype(LD)
+            dev = np.abs(cur - m)
+            thr = LD(nsig) * s
+            margin = LD(1e-9) * s + LD(1e-11) * np.abs(cur).max()
+            if np.any(np.abs(dev - thr) <= margin):
+                return idx, False, removing
+            keep = dev < thr
         nk = int(keep.sum())
         if nk == 0 or nk == idx.size:
             break
@@ -455,6 +514,7 @@ def classify_clip(case):
     nsig, niter = (4, 4) if case["defaults"] else (case["nsig"], case["niter"])
     ref, decidable, removing = _ref_clip(x, w, nsig, niter)
     labs = ["weights:" + case["wmode"], "outliers:%d" % len(case["outliers"]),
+            "family:" + ("exact-threshold" if "exact" in case else "explicit" if "z" in case else "seeded"),
             "niter:%s" % ("0" if niter == 0 else "1" if niter == 1 else "2+"),
             "removing-iterations:%s" % min(removing, 3), "decidable:%s" % decidable,
             "get_err:%s" % case["get_err"], "get_indices:%s" % case["get_indices"]]
@@ -531,16 +591,22 @@ def check_interp(case, ctx):
     got = got.reshape(-1)
     xl, vl = x.astype(LD), v.astype(LD)
     n = x.size
+    xf = x.astype("f8")
     for j, uq in enumerate(u.tolist()):
-        # segment: the one containing u, the first/last one outside the table
-        i = int(np.searchsorted(x.astype("f8"), uq, side="right")) - 1
-        i = min(max(i, 0), n - 2)
-        term = (LD(uq) - xl[i]) * (vl[i + 1] - vl[i]) / (xl[i + 1] - xl[i])
-        exp = vl[i] + term
-        tol = 1e-12 * float(abs(vl[i]) + abs(vl[i + 1]) + abs(term)) + ABS_FLOOR
-        require(_close(got[j], exp, tol), "interplin(u=%r)=%r, piecewise-linear value %r (segment [%r,%r] -> "
-                "[%r,%r])", uq, float(got[j]), float(exp), float(x[i]), float(x[i + 1]), float(v[i]),
-                float(v[i + 1]))
+        # segment: the one containing u (either neighbour when u sits on a node), the first/last one outside
+        cands = set()
+        for side in ("left", "right"):
+            i = int(np.searchsorted(xf, uq, side=side)) - 1
+            cands.add(min(max(i, 0), n - 2))
+        ok, info = False, []
+        for i in sorted(cands):
+            term = (LD(uq) - xl[i]) * (vl[i + 1] - vl[i]) / (xl[i + 1] - xl[i])
+            exp = vl[i] + term
+            tol = 1e-12 * float(abs(vl[i]) + abs(vl[i + 1]) + abs(term)) + ABS_FLOOR
+            ok = ok or _close(got[j], exp, tol)
+            info.append((float(x[i]), float(x[i + 1]), float(v[i]), float(v[i + 1]), float(exp)))
+        require(ok, "interplin(u=%r)=%r; piecewise-linear value per admissible segment (x_i, x_i+1, v_i, v_i+1, "
+                "value): %r", uq, float(got[j]), info)
 
 
 def classify_interp(case):
